@@ -516,6 +516,16 @@ def bcanon(expr: ast.AST, neg: bool = False, depth: int = 0) -> Any:
         if b == ("const", False):
             return _mk("and", [t, a])
         return _mk("or", [_mk("and", [t, a]), _mk("and", [nt, b])])
+    if isinstance(expr, ast.Compare) and len(expr.ops) == 1 and (isinstance(expr.left, ast.IfExp) or isinstance(expr.comparators[0], ast.IfExp)):
+        # `(a if t else b) is None`  ==  `(a is None) if t else (b is None)`
+        side = expr.left if isinstance(expr.left, ast.IfExp) else expr.comparators[0]
+        def cmp_with(v: ast.AST) -> ast.AST:
+            return ast.Compare(left=v, ops=expr.ops, comparators=expr.comparators) if side is expr.left \
+                else ast.Compare(left=expr.left, ops=expr.ops, comparators=[v])
+        return bcanon(ast.IfExp(test=side.test, body=cmp_with(side.body), orelse=cmp_with(side.orelse)), neg, depth)
+    if isinstance(expr, ast.Compare) and len(expr.ops) == 1 and isinstance(expr.ops[0], (ast.Is, ast.IsNot, ast.Eq, ast.NotEq)) \
+            and txt(expr.left) == txt(expr.comparators[0]) and isinstance(expr.left, (ast.Constant, ast.Name)):
+        return ("const", isinstance(expr.ops[0], (ast.Is, ast.Eq)) != neg)
     if isinstance(expr, ast.Compare):
         parts = []
         left = expr.left
@@ -533,6 +543,15 @@ def bcanon(expr: ast.AST, neg: bool = False, depth: int = 0) -> Any:
                 and isinstance(expr.args[0].generators[0].target, ast.Name):
             comp = expr.args[0]
             g = comp.generators[0]
+            if isinstance(g.iter, (ast.Tuple, ast.List, ast.Set)) and not any(isinstance(x, ast.Starred) for x in g.iter.elts):
+                # a quantifier over a literal collection is the and/or of its instances
+                is_all = (expr.func.id == "all") != neg
+                insts = []
+                for item in g.iter.elts:
+                    env = {g.target.id: item}  # type: ignore[union-attr]
+                    parts = [bcanon(beta(subst(c, env)), is_all, depth) for c in g.ifs] + [bcanon(beta(subst(comp.elt, env)), neg, depth)]
+                    insts.append(_mk("or" if is_all else "and", parts))
+                return _mk("and" if is_all else "or", insts)
             var = f"?{depth}"
             ren = {g.target.id: var}  # type: ignore[union-attr]
             is_all = (expr.func.id == "all") != neg
@@ -868,3 +887,18 @@ class DupFree:
                     return True if ann_is_setlike(self.public_api[f.attr].node.returns) else None
             return None
         return None
+
+
+def simplify_under(expr: ast.AST, known: set[Any]) -> ast.AST:
+    """Resolve the conditional expressions in `expr` whose test (or its negation) follows from the canonical
+    facts `known` (on a copy)."""
+    class S(ast.NodeTransformer):
+        def visit_IfExp(self, node: ast.IfExp) -> ast.AST:  # noqa: N802
+            self.generic_visit(node)
+            if facts(bcanon(node.test)) <= known:
+                return node.body
+            if facts(bcanon(node.test, True)) <= known:
+                return node.orelse
+            return node
+
+    return S().visit(copy.deepcopy(expr))
